@@ -167,4 +167,32 @@ static void prop_lanes(pbt::Ctx& c) {
 }
 PBT_RANDOM("pack_lanes", prop_lanes, 400000, 20000000, "4 floats (random bits, half-representable, or off-grid) through packHalf2x16/4x16/packHalf<L> and their inverses; non-trivial = four pairwise distinct half codes (a swapped or duplicated lane is visible)");
 
+// every pair / quadruple from a table of special floats (signed zeros, subnormal edges, ties, the overflow boundary, infinities, NaN)
+// through the multi-component packers: a special case keyed on "all lanes zero" or on one particular lane is only visible here
+static const uint32_t SPEC_BITS[] = {0x00000000u, 0x80000000u, 0x00000001u, 0x80000001u, 0x33000000u /*2^-25*/, 0xb3000000u, 0x33000001u, 0x33800000u /*2^-24*/, 0x387fc000u, 0x38800000u /*2^-14*/,
+                                      0x3f800000u, 0xbf800000u, 0x3f801000u /*tie*/, 0x477fe000u /*65504*/, 0x477fefffu, 0x477ff000u /*65520*/, 0xc77ff000u, 0x7f800000u, 0xff800000u, 0x7fc00000u, 0xffc00001u, 0x7f7fffffu};
+static const int NSPEC = sizeof(SPEC_BITS) / sizeof(SPEC_BITS[0]);
+static void prop_lane_specials(pbt::Ctx& c) {
+	uint64_t idx = c.draw((uint64_t)NSPEC * NSPEC * NSPEC * NSPEC);
+	float v[4]; uint16_t h[4]; bool distinct = true;
+	for (int i = 0; i < 4; ++i) { v[i] = u2f(SPEC_BITS[idx % NSPEC]); idx /= NSPEC; h[i] = glm::packHalf1x16(v[i]); }
+	for (int i = 0; i < 4; ++i) for (int j = i + 1; j < 4; ++j) if (h[i] == h[j]) distinct = false;
+	c.logf("v=(%a,%a,%a,%a) halves=(%04x,%04x,%04x,%04x)", (double)v[0], (double)v[1], (double)v[2], (double)v[3], h[0], h[1], h[2], h[3]);
+	auto nanok = [](uint16_t got, uint16_t want) { return got == want || (half_is_nan(got) && half_is_nan(want) && (got & 0x8000) == (want & 0x8000)); };
+	glm::uint p2 = glm::packHalf2x16(glm::vec2(v[0], v[1]));
+	if (!nanok((uint16_t)(p2 & 0xffff), h[0]) || !nanok((uint16_t)(p2 >> 16), h[1])) c.fail("lanes/specials/packHalf2x16", "packHalf2x16(%a,%a) = 0x%08x, expected lanes %04x,%04x", (double)v[0], (double)v[1], p2, h[0], h[1]);
+	glm::uint64 p4 = glm::packHalf4x16(glm::vec4(v[0], v[1], v[2], v[3]));
+	glm::vec<4, glm::uint16> q4 = glm::packHalf(glm::vec4(v[0], v[1], v[2], v[3]));
+	glm::vec<3, glm::uint16> q3 = glm::packHalf(glm::vec3(v[0], v[1], v[2]));
+	glm::vec<2, glm::uint16> q2 = glm::packHalf(glm::vec2(v[0], v[1]));
+	for (int i = 0; i < 4; ++i) {
+		if (!nanok((uint16_t)((p4 >> (16 * i)) & 0xffff), h[i])) c.fail("lanes/specials/packHalf4x16", "lane %d of packHalf4x16 = %04x, expected %04x", i, (unsigned)((p4 >> (16 * i)) & 0xffff), h[i]);
+		if (!nanok(q4[i], h[i])) c.fail("lanes/specials/packHalf<4>", "lane %d of packHalf(vec4) = %04x, expected %04x (x=%a)", i, q4[i], h[i], (double)v[i]);
+		if (i < 3 && !nanok(q3[i], h[i])) c.fail("lanes/specials/packHalf<3>", "lane %d of packHalf(vec3) = %04x, expected %04x", i, q3[i], h[i]);
+		if (i < 2 && !nanok(q2[i], h[i])) c.fail("lanes/specials/packHalf<2>", "lane %d of packHalf(vec2) = %04x, expected %04x", i, q2[i], h[i]);
+	}
+	if (distinct) c.nontrivial();
+}
+PBT_SWEEP("pack_lane_specials", prop_lane_specials, (uint64_t)NSPEC* NSPEC* NSPEC* NSPEC, 1, 1, "every quadruple from a table of 22 special floats (signed zeros, subnormal/underflow edges, a tie, 65504/65520, infinities, NaNs) through packHalf2x16/4x16/packHalf<2,3,4>, lane by lane against packHalf1x16; non-trivial = four distinct codes");
+
 int main(int argc, char** argv) { return pbt::pbt_main(argc, argv, "C07"); }
